@@ -37,12 +37,12 @@ OBLIGATIONS = [
              "bad number/hash => BadHashError/NotEnoughHashesError, tree unchanged, corruption signalled for exactly the section; not arrived => False, nothing changed",
         outside="hash numbers above the tree size (the first out-of-range number is included); m > m_max entries; for N >= 3 the section has fully arrived"),
     chx("block_hashes_gate", "C02_h", "h_hashchain", timeout=T, bounds={"quick": {"which": "block", "vtier": 1}},
-        cases={"quick": [{"n": n, "_label": "n%d" % n} for n in (2, 3)], "thorough": [{"n": n, "_label": "n%d" % n} for n in (1, 2, 3, 4)]},
+        cases={"quick": [{"n": n, "_label": "n%d" % n} for n in (2, 3)], "thorough": [{"n": n, "_label": "n%d" % n} for n in (2, 3, 4)]},
         desc="Share._satisfy_block_hash_tree + CommonShare.get_needed_block_hashes/process_block_hashes: every tree node slot of the share holds a symbolic hash; "
              "accepted => the needed hashes equal the genuine nodes, tree genuine, nothing more needed; rejected => tree unchanged + corruption signalled; "
              "partially arrived => False and nothing consumed"),
     chx("ciphertext_hashes_gate", "C02_h", "h_hashchain", timeout=T, bounds={"quick": {"which": "ct", "vtier": 1}},
-        cases={"quick": [{"n": n, "_label": "n%d" % n} for n in (2, 4)], "thorough": [{"n": n, "_label": "n%d" % n} for n in (1, 2, 3, 4)]},
+        cases={"quick": [{"n": n, "_label": "n%d" % n} for n in (2, 4)], "thorough": [{"n": n, "_label": "n%d" % n} for n in (2, 3, 4)]},
         desc="same for Share._satisfy_ciphertext_hash_tree + DownloadNode.get_needed_ciphertext_hashes/process_ciphertext_hashes"),
     chx("data_block_gate", "C02_h", "h_datablock", timeout=T,
         cases={"quick": [{"n": n, "_label": "n%d" % n} for n in (1, 3)], "thorough": [{"n": n, "_label": "n%d" % n} for n in (1, 2, 3, 4)]},
